@@ -75,14 +75,14 @@ def groups_arg(draw, d):
 @st.composite
 def est_spec(draw, classes=None, n_max=12, d_max=4, k_max=3, hidden_max=4, iter_max=3, lr=(0.01, 0.1, 0.5),
              cuts_max=2, batch_sizes=True, default_lr=False, gem_names=None, allow_instance=True, kernel_forms=None,
-             metric_forms=None, metric_names=None, n_min=None, d_min=1):
+             metric_forms=None, metric_names=None, n_min=None, d_min=1, xkinds=("normal", "grid", "scaled")):
     cls = draw(st.sampled_from(sorted(classes or GRADIENT_MODELS)))
     K = draw(st.integers(1, k_max))
     n = draw(st.integers(max(K, n_min or 1), max(n_max, K)))
     d = draw(st.integers(d_min, d_max))
     s = {"cls": cls, "n": n, "d": d, "n_clusters": K, "max_iter": draw(st.integers(1, iter_max)),
          "solver": draw(st.sampled_from(["sgd", "adam"])), "random_state": draw(st.integers(0, 10 ** 6)),
-         "x": {"d": d, "xseed": draw(gens.seeds), "xkind": draw(st.sampled_from(["normal", "grid", "scaled"]))}}
+         "x": {"d": d, "xseed": draw(gens.seeds), "xkind": draw(st.sampled_from(list(xkinds)))}}
     if not default_lr:
         s["learning_rate"] = draw(st.sampled_from(list(lr)))
     if cls not in NO_BATCH_ARG and batch_sizes:
